@@ -28,26 +28,38 @@ pub fn condcase(c: &J) -> J {
     let mut steps: Vec<J> = vec![];
     let r = guarded(|| {
         match place {
-            "select" | "having" => {
+            "select" | "having" | "having_plain" | "select_take" | "having_take" => {
+                // *_take: every observation is made on the statement handed over by take() from a copy of the builder
+                let taken = place.ends_with("_take");
+                let place = place.trim_end_matches("_take");
+                let obs_of = |s: &SelectStatement| if taken { inline_only(&s.clone().take()) } else { inline_only(s) };
                 let mut s = Query::select();
-                s.column(expr::a("id")).from(expr::a("t"));
+                if place == "having_plain" {
+                    // HAVING without GROUP BY (an aggregate query)
+                    s.expr(Func::count(Expr::col(expr::a("id")))).from(expr::a("t"));
+                } else {
+                    s.column(expr::a("id")).from(expr::a("t"));
+                }
                 if place == "having" {
                     s.group_by_col(expr::a("id"));
                 }
-                steps.push(json!({"step": 0, "obs": inline_only(&s)}));
+                steps.push(json!({"step": 0, "obs": obs_of(&s)}));
                 for (i, call) in calls.iter().enumerate() {
                     let mut cc = call.clone();
-                    if place == "having" {
+                    if place != "select" {
                         let op = cc["op"].as_str().unwrap().replace("where", "having");
                         cc["op"] = json!(op);
                     }
                     stmt::apply_select(&mut s, &cc);
-                    steps.push(json!({"step": i + 1, "obs": inline_only(&s)}));
+                    steps.push(json!({"step": i + 1, "obs": obs_of(&s)}));
                 }
             }
-            "update" => {
+            "update" | "update_from2" => {
                 let mut s = Query::update();
                 s.table(expr::a("t")).value(expr::a("x"), 1);
+                if place == "update_from2" {
+                    s.from(expr::a("u")).from(expr::a("v"));
+                }
                 steps.push(json!({"step": 0, "obs": inline_only(&s)}));
                 for (i, call) in calls.iter().enumerate() {
                     stmt::apply_update(&mut s, call);
@@ -80,14 +92,28 @@ pub fn condcase(c: &J) -> J {
                     steps.push(json!({"step": i + 1, "single": true, "obs": inline_only(&s)}));
                 }
             }
-            "conflict" => {
-                for (i, call) in calls.iter().enumerate() {
-                    let mut oc = OnConflict::column(expr::a("id"));
-                    oc.update_column(expr::a("x"));
-                    oc.action_cond_where(expr::cond(arg_of(call)));
+            "conflict" | "conflict_target" => {
+                // the conditions of ON CONFLICT .. [WHERE target] DO UPDATE .. [WHERE action], call by call
+                let mut oc = OnConflict::column(expr::a("id"));
+                oc.update_column(expr::a("x"));
+                let action = place == "conflict";
+                let render = |oc: &OnConflict| {
                     let mut s = Query::insert();
-                    s.into_table(expr::a("t")).columns([expr::a("id"), expr::a("x")]).values_panic([1.into(), 2.into()]).on_conflict(oc);
-                    steps.push(json!({"step": i + 1, "single": true, "obs": inline_only(&s)}));
+                    s.into_table(expr::a("t")).columns([expr::a("id"), expr::a("x")]).values_panic([1.into(), 2.into()]).on_conflict(oc.clone());
+                    inline_only(&s)
+                };
+                steps.push(json!({"step": 0, "obs": render(&oc)}));
+                for (i, call) in calls.iter().enumerate() {
+                    match (call["op"].as_str().unwrap(), action) {
+                        ("and_where", true) => { oc.action_and_where(expr::expr(&call["e"])); }
+                        ("and_where", false) => { oc.target_and_where(expr::expr(&call["e"])); }
+                        ("and_where_option", true) => { oc.action_and_where_option(Some(expr::expr(&call["e"]))); }
+                        ("and_where_option", false) => { oc.target_and_where_option(Some(expr::expr(&call["e"]))); }
+                        ("cond_where", true) => { oc.action_cond_where(expr::cond(&call["c"])); }
+                        ("cond_where", false) => { oc.target_cond_where(expr::cond(&call["c"])); }
+                        (o, _) => panic!("case error: unknown on-conflict call {o}"),
+                    }
+                    steps.push(json!({"step": i + 1, "obs": render(&oc)}));
                 }
             }
             _ => panic!("place"),
@@ -125,6 +151,29 @@ pub fn tplcase(c: &J) -> J {
     use crate::util::alnum_flags;
     use crate::val::{from_value, to_value};
     let tpl = c["tpl"].as_str().unwrap().to_string();
+    if let Some(es) = c.get("exprs").and_then(|x| x.as_array()) {
+        // cust_with_expr / cust_with_exprs with value-free expressions; their stand-alone renderings are the literals
+        let es: Vec<SimpleExpr> = es.iter().map(expr::expr).collect();
+        let lits = {
+            let es = es.clone();
+            per_backend!(B => json!(es.iter().map(|e| {
+                let s = Query::select().expr(e.clone()).to_string(B::default());
+                s.strip_prefix("SELECT ").unwrap_or(&s).to_string()
+            }).collect::<Vec<String>>()))
+        };
+        let (t2, e2) = (tpl.clone(), es.clone());
+        let single = c["single"].as_bool().unwrap_or(false) && es.len() == 1;
+        let obs = per_backend!(B => {
+            let ce = if single { Expr::cust_with_expr(t2.clone(), e2[0].clone()) } else { Expr::cust_with_exprs(t2.clone(), e2.clone()) };
+            let q = Query::select().expr(ce).to_owned();
+            let inline = q.to_string(B::default());
+            let (sql, values) = q.build(B::default());
+            let inj = guarded(|| json!(inject_parameters(&sql, values.0.clone(), &B::default())));
+            json!({"inline": inline, "sql": sql, "al_sql": alnum_flags(&sql),
+                   "values": values.0.iter().map(from_value).collect::<Vec<J>>(), "inject": inj})
+        });
+        return json!({"id": c["id"], "tpl": tpl, "al": alnum_flags(&tpl), "vals": [], "mode": "exprs", "nexprs": es.len(), "exprs": c["exprs"], "single": single, "lits": lits, "obs": obs});
+    }
     let vals: Vec<Value> = c["vals"].as_array().unwrap().iter().map(to_value).collect();
     let lits = {
         let vals = vals.clone();
@@ -140,7 +189,7 @@ pub fn tplcase(c: &J) -> J {
         json!({"inline": inline, "sql": sql, "al_sql": alnum_flags(&sql),
                "values": values.0.iter().map(from_value).collect::<Vec<J>>(), "inject": inj})
     });
-    json!({"id": c["id"], "tpl": tpl, "al": alnum_flags(&tpl), "vals": c["vals"], "lits": lits, "obs": obs})
+    json!({"id": c["id"], "tpl": tpl, "al": alnum_flags(&tpl), "vals": c["vals"], "mode": "values", "nexprs": 0, "lits": lits, "obs": obs})
 }
 
 /// C01/C02/C07/C08/C09: {"id","stmt":{kind,calls}} -> every rendering entry point on every
